@@ -41,27 +41,79 @@ def extras_survived(g, form, nodes, edges):
         variant_extras_intact(g, nodes, edges)
 
 
-def impl_complete(ids, aams, offset, via_its=False, form=None):
+# ---------------------------------------------------------------------------------------------------------------
+# HOW the call is written (review 3, M2/M3): the default of every optional argument is part of the documented
+# behaviour ("numbering starts at 1 or offset"; `initialize_aam(graph, offset=1)`), and a scalar argument may be a
+# plain int or a numpy integer scalar (an offset that came out of an array, e.g. np.min of the existing numbers).
+#   call form   : omitted (only when the wanted value IS the documented default) / positional / keyword /
+#                 all_keyword (graph= as well)
+#   scalar form : int / np.int64 / np.int32 (integer offsets only); every form must give the plain-int answer
+# The documented defaults are written down HERE (not read from the signature): changing a default in the library is
+# a change of behaviour the check must see.
+DOCUMENTED_DEFAULT = {"complete_aam": None, "initialize_aam": 1}
+CALL_FORMS = ("keyword", "positional", "all_keyword")
+SCALAR_FORMS = ("int", "np.int64", "np.int32")
+
+
+def scalar_in_form(v, sform):
+    if sform in (None, "int") or not isinstance(v, int) or isinstance(v, bool):
+        return v
+    import numpy as np
+    return {"np.int64": np.int64, "np.int32": np.int32}[sform](v)
+
+
+def pick_call_form(rng, fname, offset):
+    """(call form, scalar form) for one call: a fixed share omits the argument (possible only when the wanted value
+    is the documented default), the rest is spread over positional / keyword / all-keyword; 30% of the integer
+    offsets travel as numpy scalars"""
+    cform = rng.choice(CALL_FORMS)
+    if offset == DOCUMENTED_DEFAULT[fname] and rng.random() < 0.6:
+        cform = "omitted"
+    sform = "int"
+    if isinstance(offset, int) and cform != "omitted" and rng.random() < 0.3:
+        sform = rng.choice(SCALAR_FORMS[1:])
+    return cform, sform
+
+
+def invoke(f, fname, g, offset, cform=None, sform=None):
+    """call `f` (complete_aam / initialize_aam) on g in the given call form"""
+    off = scalar_in_form(offset, sform)
+    if cform in (None, "keyword"):
+        return f(g, offset=off)
+    if cform == "positional":
+        return f(g, off)
+    if cform == "all_keyword":
+        return f(graph=g, offset=off)
+    if cform == "omitted":
+        if offset != DOCUMENTED_DEFAULT[fname]:
+            raise AssertionError("harness defect: argument omitted although the wanted value is not the documented default")
+        return f(g)
+    raise AssertionError("unknown call form %r" % (cform,))
+
+
+def impl_complete(ids, aams, offset, via_its=False, form=None, cform=None, sform=None):
     from fgutils.utils import complete_aam
     from fgutils.its import ITS
     g = formed(mk_graph(ids, aams), form)
     nodes, edges = list(g.nodes), list(g.edges)
     if via_its:
-        ITS(g)
+        # the constructor has one argument: positional or by keyword
+        its = ITS(graph=g) if cform in ("all_keyword", "keyword") else ITS(g)
+        if its.graph is not g:
+            raise AssertionError("ITS(graph) does not hold the graph it was given")
     else:
-        off = "min" if offset == "min" else offset
-        complete_aam(g, offset=off)
+        invoke(complete_aam, "complete_aam", g, offset, cform, sform)
     extras_survived(g, form, nodes, edges)
     return [g.nodes[n].get("aam") for n in g.nodes]
 
 
-def impl_initialize(ids, aams, offset, form=None):
+def impl_initialize(ids, aams, offset, form=None, cform=None, sform=None):
     from fgutils.utils import initialize_aam
     g = formed(mk_graph(ids, aams), form)
     nodes, edges = list(g.nodes), list(g.edges)
     raised = False
     try:
-        initialize_aam(g, offset=offset)
+        invoke(initialize_aam, "initialize_aam", g, offset, cform, sform)
     except RuntimeError:
         raised = True
     extras_survived(g, form, nodes, edges)
@@ -199,6 +251,17 @@ def gen_case(rng, big=False):
     return ids, aams, offset
 
 
+# fixed regression inputs for the call forms (review 3): the documented default start (1) with existing numbers below
+# and above it (a default of "min" would start at -3 / at 4); a numpy scalar as offset (F16: ValueError before dde1a94)
+CORPUS_FORMS = [
+    ([0, 1, 2, 3], [None, -3, None, 0], None, "omitted", "int"),
+    ([0, 1, 2, 3], [None, 4, None, 6], None, "omitted", "int"),
+    ([0, 1, 2], [None, 7, None], 5, "keyword", "np.int64"),
+    ([4, 2, 9], [None, 2, None], 2, "positional", "np.int32"),
+    ([1, 2, 3], [None, None, 3], None, "positional", "int"),
+]
+
+
 def run(tier, seed):
     r = Run("C20", tier, seed)
     if not prepare(r, PROOFS, "C20"):
@@ -215,33 +278,51 @@ def run(tier, seed):
         ([0, 1, 2, 3], [None, -1, None, 0], "min"),
     ]
     for k in range(n_cases):
-        ids, aams, offset = corpus[k] if k < len(corpus) else gen_case(rng, big=(k % 10 == 0))
+        ids, aams, offset = corpus[k - len(CORPUS_FORMS)] if len(CORPUS_FORMS) <= k < len(CORPUS_FORMS) + len(corpus) \
+            else gen_case(rng, big=(k % 10 == 0))
         via_its = offset == "min" and rng.random() < 0.3
         # the FORM of the input (12%): irrelevant extra node / edge attributes (must survive the in-place completion),
         # numpy.int64 ids and map numbers (a map that came out of an array / a table column)
         form = rng.choice(VARIANT_KINDS) if (ids and rng.random() < 0.12) else None
-        out = call_impl(impl_complete, ids, aams, offset, via_its, form)
+        cform, sform = pick_call_form(rng, "complete_aam", offset)
+        if k < len(CORPUS_FORMS):
+            ids, aams, offset, cform, sform = CORPUS_FORMS[k]
+            via_its = False
+        if via_its:
+            cform, sform = rng.choice(("positional", "keyword")), "int"
+        out = call_impl(impl_complete, ids, aams, offset, via_its, form, cform, sform)
         woff = Atom("min") if offset == "min" else offset
         req = [Atom("C20"), Atom("complete"), woff, aams]
         key = ("c", tuple(aams), offset, form) if any(a is None for a in aams) and any(a is not None for a in aams) else None
-        cases.append(Case(req, out, meta={"ids": ids, "offset": offset, "via_ITS": via_its, "variant": form}, nontrivial_key=key,
+        fn = "ITS" if via_its else "complete_aam"
+        cases.append(Case(req, out, meta={"ids": ids, "offset": offset, "via_ITS": via_its, "variant": form,
+                                          "call_form": cform, "scalar_form": sform}, nontrivial_key=key,
                           tags=("complete", "offset=%s" % ("int" if isinstance(offset, int) else offset),
-                                "via_its" if via_its else "direct", "mapped>6" if sum(a is not None for a in aams) > 6 else "mapped<=6")
+                                "via_its" if via_its else "direct", "mapped>6" if sum(a is not None for a in aams) > 6 else "mapped<=6",
+                                "call_form:%s:%s" % (fn, cform))
+                          + (("scalar_form:%s:offset=%s" % (fn, sform),) if isinstance(offset, int) and not via_its else ())
                           + (("input_form", "variant=" + form) if form else ())))
         if k % 5 == 2:
             cases += two_step_cases(rng, ids, aams, offset)
         if k % 4 == 0:
-            off = rng.randint(-2, 5)
+            # a quarter of the calls want the documented default (1): most of those omit the argument
+            off = rng.randint(-2, 5) if rng.random() < 0.75 else DOCUMENTED_DEFAULT["initialize_aam"]
             form = rng.choice(VARIANT_KINDS) if (ids and rng.random() < 0.12) else None
-            out = call_impl(impl_initialize, ids, aams, off, form)
+            cform, sform = pick_call_form(rng, "initialize_aam", off)
+            out = call_impl(impl_initialize, ids, aams, off, form, cform, sform)
             req = [Atom("C20"), Atom("initialize"), off, [[i, a] for i, a in zip(ids, aams)]]
-            cases.append(Case(req, out, meta={"offset": off, "variant": form}, nontrivial_key=("i", tuple(ids), tuple(aams), off, form) if ids else None,
-                              tags=("initialize", "init_raises" if any(a is not None for a in aams) else "init_ok")
+            cases.append(Case(req, out, meta={"offset": off, "variant": form, "call_form": cform, "scalar_form": sform},
+                              nontrivial_key=("i", tuple(ids), tuple(aams), off, form) if ids else None,
+                              tags=("initialize", "init_raises" if any(a is not None for a in aams) else "init_ok",
+                                    "call_form:initialize_aam:" + cform, "scalar_form:initialize_aam:offset=" + sform)
                               + (("input_form", "variant=" + form) if form else ())))
     r.evaluate(cases)
     r.assumptions = [
         "networkx node iteration order is modelled as a list; the graph enters complete_aam only through it and the aam attribute",
         "Python int is modelled by Lean Int (unbounded on both sides)",
+        "the value of an omitted argument is the documented default (complete_aam: numbering starts at 1; initialize_aam: offset=1), "
+        "written down in the harness (DOCUMENTED_DEFAULT), not read from the signature; an integer argument means its value, "
+        "whether it is a Python int or a numpy integer scalar",
         "the functions are modelled as stateless: every call is judged against the graph as it is when the call is made; "
         "two-call scenarios on ONE graph object (complete_aam, in-place edit of the map - numbers removed/changed, mapped and "
         "unmapped atoms added -, complete_aam again; initialize_aam twice with the map wiped or kept in between) check that "
@@ -251,10 +332,15 @@ def run(tier, seed):
         level="proof",
         rule="random node lists (0-40 nodes, shuffled/sparse ids) x partial maps (gaps, duplicates, negatives, dense blocks) x offset in {None,int,'min'}, "
              "30% of the 'min' cases through ITS(graph); 12% of the graphs in another FORM (extra node/edge attributes that must survive the in-place "
-             "completion, numpy.int64 ids and map numbers; tags variant=*); every 5th input also as a two-call scenario on one graph object with in-place edits between the calls; non-trivial = partial map with at least one mapped and one unmapped node, distinct by (map, offset)",
+             "completion, numpy.int64 ids and map numbers; tags variant=*); HOW the call is written is drawn per call (tags call_form:<function>:<form>, scalar_form:*): 60% of the calls that want the documented "
+             "default (complete_aam: start 1; initialize_aam: offset 1; defaults written down in the harness) OMIT the argument, the others pass it "
+             "positionally / by keyword / with graph= as keyword too, ITS(g) / ITS(graph=g); 30% of the integer offsets travel as numpy.int64 / numpy.int32 "
+             "scalars and must give the plain-int answer; every 5th input also as a two-call scenario on one graph object with in-place edits between the calls; non-trivial = partial map with at least one mapped and one unmapped node, distinct by (map, offset)",
         checker_cmd="cd lean && lake build FGVerif.Proofs.C20 && lake env lean FGVerif/Audit/C20.lean",
         explanation="theorems in lean/FGVerif/Proofs/C20.lean about Model/C20.lean; model tied to fgutils.utils.complete_aam/initialize_aam by differential testing; "
-                    "executable spec C20.specCheck applied to every implementation output")
+                    "executable spec C20.specCheck (proved equivalent to the declarative Spec, C20.specCheck_iff: the statement clause by clause, "
+                    "not the order in which new numbers are handed to nodes; that order is tied to the code by the exact comparison with the model only) "
+                    "applied to every implementation output")
 
 
 def replay(path):
@@ -270,6 +356,9 @@ def replay(path):
     form = meta.get("variant")
     if form:
         print("re-applying the recorded input form: variant=%s" % form)
+    cform, sform = meta.get("call_form"), meta.get("scalar_form")
+    if cform or sform:
+        print("re-applying the recorded call form: argument %s, scalar as %s" % (cform, sform))
 
     def reimpl(req):
         op = req[1]
@@ -277,11 +366,11 @@ def replay(path):
             offset = "min" if req[2] == "min" else opt(req[2])
             aams = [opt(a) for a in req[3]]
             ids = meta.get("ids") if isinstance(meta.get("ids"), list) and len(meta["ids"]) == len(aams) else list(range(len(aams)))
-            return call_impl(impl_complete, ids, aams, offset, bool(meta.get("via_ITS")), form)
+            return call_impl(impl_complete, ids, aams, offset, bool(meta.get("via_ITS")), form, cform, sform)
         off = int(req[2])
         ids = [int(p[0]) for p in req[3]]
         aams = [opt(p[1]) for p in req[3]]
-        return call_impl(impl_initialize, ids, aams, off, form)
+        return call_impl(impl_initialize, ids, aams, off, form, cform, sform)
 
     if meta.get("two_step"):
         # re-run the whole two-call scenario on one graph object; judge the recorded call
